@@ -260,3 +260,87 @@ def gen_inl(ctx, rng, count):
             inp["cyclic"] = True
             inp["sel"] = sorted(set(inp["sel"]) | {a})
         yield "inl", inp
+
+
+# ---------------------------------------------------------------------------------------------
+# finding of the extension round: a fused chain stored under a NEW name that occurs as a literal in some task
+# ---------------------------------------------------------------------------------------------
+
+def _atoms(o, out):
+    """hashable str / tuple literals in reference position (task arguments, list elements, dict values)"""
+    if type(o) is tuple and o and callable(o[0]):
+        for a in o[1:]:
+            _atoms(a, out)
+    elif isinstance(o, list):
+        for a in o:
+            _atoms(a, out)
+    elif isinstance(o, dict):
+        for a in o.values():
+            _atoms(a, out)
+    else:
+        try:
+            hash(o)
+            out.add(o)
+        except TypeError:
+            pass
+
+
+def case_renlit(ctx, inp):
+    """legacy `fuse_linear` / `fuse` with key renaming: in a legacy graph a hashable value equal to a key IS a reference, so
+    storing the fused chain under a new name turns every literal equal to that name into a reference to the fused task.
+    Known finding (sig per pass); anything else is a fresh failure."""
+    from dask.optimization import default_fused_keys_renamer, default_fused_linear_keys_renamer, fuse, fuse_linear
+    items = inp["graph"]
+    dsk = {build(k): build(v) for k, v in items}
+    allkeys = [build(k) for k, _ in items]
+    req = [allkeys[i] for i in inp["keys"]]
+    want = _vals(dsk, req)
+    atoms = set()
+    for v in dsk.values():
+        _atoms(v, atoms)
+    for op in ("fuse_linear", "fuse"):
+        rec = []
+
+        def renamer(chain, _op=op, _rec=rec):
+            new_ = (default_fused_linear_keys_renamer if _op == "fuse_linear" else default_fused_keys_renamer)(list(chain))
+            _rec.append(new_)
+            return new_
+        try:
+            out, _ = (fuse_linear(dsk, keys=req, rename_keys=renamer) if op == "fuse_linear"
+                      else fuse(dsk, keys=req, rename_keys=renamer, ave_width=2))
+        except Exception as e:
+            ctx.fail(f"{op} raised {type(e).__name__}: {e}")
+            continue
+        got = _vals(out, req)
+        collide = [n for n in rec if n is not None and n in atoms and n not in dsk]
+        if got != want:
+            sig = f"{op}:value-changed:renamed-key-occurs-as-literal-in-a-task" if collide else None
+            ctx.fail(f"{op}(rename_keys=True): value of a requested key changed", sig=sig, observed=got, expected=want)
+            ctx.branch(f"renlit-{op}-" + ("cycle" if any(isinstance(g, list) and g and g[0] == "raised" for g in got) else "silent"))
+        elif collide:
+            ctx.branch(f"renlit-{op}-collision-harmless")
+
+
+def gen_renlit(ctx, rng):
+    """chains a <- b <- c whose default fused name is put, as a string literal, into the top task or into another task"""
+    for tup in (False, True):
+        for where in ("top", "other"):
+            for n in (2, 3):
+                base = ["a", "b", "c"][:n]
+                key = (lambda s: {"t": [s, 0]}) if tup else (lambda s: s)
+                name = "-".join(base)
+                lit = {"t": [name, 0]} if tup else name
+                g = [[key(base[0]), 1]]
+                for i in range(1, n):
+                    args = [key(base[i - 1])]
+                    if where == "top" and i == n - 1:
+                        args.append(lit)
+                    g.append([key(base[i]), {"t": [{"fn": i}] + args}])
+                keys = [n - 1]
+                if where == "other":
+                    # `d` refers to the chain's top twice (so the chain ends there) and holds the literal
+                    g.append([key("d"), {"t": [{"fn": 4}, key(base[-1]), lit, key(base[-1])]}])
+                    keys = [n]
+                order = list(range(len(g)))
+                rng.shuffle(order)
+                yield "renlit", {"graph": [g[i] for i in order], "keys": [order.index(k) for k in keys]}
